@@ -601,6 +601,12 @@ func RPCFreeSectors(ctx context.Context, t TransportClient, signer ContractSigne
 	})
 	indices = slices.Compact(indices)
 
+	numSectors := contract.Revision.Filesize / rhp4.SectorSize
+	if len(indices) > 0 && indices[0] >= numSectors {
+		// the same error an honest host returns for this request
+		return RPCFreeSectorsResult{}, rhp4.NewRPCError(rhp4.ErrorCodeBadRequest, fmt.Sprintf("sector index %d exceeds contract sectors %d", indices[0], numSectors))
+	}
+
 	req := rhp4.RPCFreeSectorsRequest{
 		ContractID: contract.ID,
 		Prices:     prices,
@@ -618,7 +624,6 @@ func RPCFreeSectors(ctx context.Context, t TransportClient, signer ContractSigne
 		return RPCFreeSectorsResult{}, fmt.Errorf("failed to write request: %w", err)
 	}
 
-	numSectors := contract.Revision.Filesize / rhp4.SectorSize
 	var resp rhp4.RPCFreeSectorsResponse
 	if err := rhp4.ReadResponse(s, &resp); err != nil {
 		return RPCFreeSectorsResult{}, fmt.Errorf("failed to read response: %w", err)
